@@ -581,7 +581,7 @@ spr_str[288] = 'CTR'
 
 sr_str = ['SR%d'%r for r in range(0x10)]
 
-all_regs = regs_str+cop_str+copr_str+cr_str+crb_str+fpr_str+spr_str
+all_regs = regs_str+cop_str+copr_str+cr_str+crb_str+fpr_str+spr_str+sr_str
 
 
 def is_symbol(a):
